@@ -348,7 +348,6 @@ func ValidityLints(fn *ssa.Function) []LintFinding {
 	return out
 }
 
-
 // errorSource: v is the error result of a call (directly, or an extract of its tuple).
 func errorSource(v ssa.Value) (ssa.Value, bool) {
 	v = throughCell(v)
@@ -362,7 +361,6 @@ func errorSource(v ssa.Value) (ssa.Value, bool) {
 	}
 	return nil, false
 }
-
 
 // throughCell: v is a load of a local variable cell (a variable captured by a
 // closure lives in a heap cell); returns the value most recently stored into
@@ -442,7 +440,6 @@ func carriersIn(v ssa.Value, in func(*ssa.BasicBlock) bool) []ssa.Value {
 	}
 	return out
 }
-
 
 // LockBalanceLints (L8): a sync.Mutex / RWMutex locked in fn is released on
 // every path to a return (directly, or by a deferred unlock installed on every
